@@ -145,8 +145,13 @@ def check_job(v, out, probe_dir, name, tokens, append_job_name, append_output_di
         v.append(D.viol("C19:argv-differs", f"job {name!r}: configured arguments {want!r}, process received {argv!r}"))
     if env[0] != name or env[1] != str(out):
         v.append(D.viol("C19:environment-differs", f"job {name!r}: JADE_JOB_NAME={env[0]!r} JADE_RUNTIME_OUTPUT={env[1]!r} expected {name!r} {out!r}"))
-    o = open(os.path.join(out, "job-stdio", name + ".o"), encoding="utf-8", errors="replace").read()
-    e = open(os.path.join(out, "job-stdio", name + ".e"), encoding="utf-8", errors="replace").read()
+    try:
+        o = open(os.path.join(out, "job-stdio", name + ".o"), encoding="utf-8", errors="replace").read()
+        e = open(os.path.join(out, "job-stdio", name + ".e"), encoding="utf-8", errors="replace").read()
+    except FileNotFoundError:
+        v.append(D.viol("C19:stdio-files-missing", f"job {name!r}: job-stdio/{name}.o / .e do not exist; directory holds "
+                        f"{sorted(os.listdir(os.path.join(out, 'job-stdio')))[:6]}"))
+        return
     if o != f"OUT-MARKER-{name}\n" or e != f"ERR-MARKER-{name}\n":
         v.append(D.viol("C19:stdio-files-differ", f"job {name!r}: .o={o!r} .e={e!r}"))
     if result is None:
